@@ -17,6 +17,7 @@ CONSTANTS MaxSinks,      \* multi-syncer: number of sinks 0..MaxSinks  (NewMulti
           MinRule,       \* "code": i = 0 \/ n < nWritten;  "first-nonzero": the pre-fix rule (spec mutant)
           StopOnError,   \* FALSE = code; TRUE = spec mutant (loop breaks at first failing sink)
           Locked,        \* TRUE = code; FALSE = spec mutant (Lock returns the bare syncer)
+          Relock,        \* "same" = code (Lock of an already locked syncer returns that very object: one mutex however many handles); "fresh" = spec mutant (a new wrapper with a mutex of its own around the inner sink)
           Emit
 
 Counts == {0, 1, Len_}                     \* zero, short, full
@@ -33,8 +34,9 @@ VARIABLES op,        \* "W" | "Y" : the multi-syncer call being modelled
           lop,       \* per proc: op it performs
           holder,    \* mutex holder or "none"
           inside,    \* number of procs inside the wrapped syncer right now
-          order      \* order in which procs entered the wrapped syncer
-vars == <<op, outs, i, nWritten, errs, got, pc, lpc, lop, holder, inside, order>>
+          order,     \* order in which procs entered the wrapped syncer
+          handle     \* per proc: which handle of a doubly locked sink it uses
+vars == <<op, outs, i, nWritten, errs, got, pc, lpc, lop, holder, inside, order, handle>>
 
 SeqsUpTo(S, n) == UNION {[1..k -> S] : k \in 0..n}
 
@@ -43,7 +45,10 @@ Init == /\ op \in {"W", "Y"}
         /\ i = 0 /\ nWritten = 0 /\ errs = <<>> /\ got = [k \in 1..Len(outs) |-> FALSE]
         /\ pc = "loop"
         /\ lpc = [p \in Procs |-> "idle"] /\ lop \in [Procs -> {"W", "Y"}]
-        /\ holder = "none" /\ inside = 0 /\ order = <<>>
+        /\ holder = [m \in {1, 2} |-> "none"] /\ inside = 0 /\ order = <<>>
+        \* which of the two handles of a doubly locked sink a goroutine holds (the replay assigns handles itself, so
+        \* generator runs need not enumerate them)
+        /\ handle \in IF Emit THEN {[p \in Procs |-> 1]} ELSE [Procs -> {1, 2}]
 
 \* ---- multiWriteSyncer: one loop iteration
 MultiStep ==
@@ -58,23 +63,24 @@ MultiStep ==
                                  ELSE IF o.n < nWritten THEN o.n ELSE nWritten)
        /\ i' = i + 1
        /\ pc' = IF StopOnError /\ o.err THEN "done" ELSE pc
-  /\ UNCHANGED <<op, outs, lpc, lop, holder, inside, order>>
+  /\ UNCHANGED <<op, outs, lpc, lop, holder, inside, order, handle>>
 MultiDone ==
   /\ pc = "loop" /\ i = Len(outs) /\ pc' = "done"
-  /\ UNCHANGED <<op, outs, i, nWritten, errs, got, lpc, lop, holder, inside, order>>
+  /\ UNCHANGED <<op, outs, i, nWritten, errs, got, lpc, lop, holder, inside, order, handle>>
 
 \* ---- Lock wrapper: Lock(); inner call; Unlock()
 LWant(p) == /\ lpc[p] = "idle" /\ lpc' = [lpc EXCEPT ![p] = "want"]
-            /\ UNCHANGED <<op, outs, i, nWritten, errs, got, pc, lop, holder, inside, order>>
-LEnter(p) == /\ lpc[p] = "want" /\ (Locked => holder = "none")
-             /\ holder' = IF Locked THEN p ELSE holder
+            /\ UNCHANGED <<op, outs, i, nWritten, errs, got, pc, lop, holder, inside, order, handle>>
+Mutex(p) == IF Relock = "same" THEN 1 ELSE handle[p]
+LEnter(p) == /\ lpc[p] = "want" /\ (Locked => holder[Mutex(p)] = "none")
+             /\ holder' = IF Locked THEN [holder EXCEPT ![Mutex(p)] = p] ELSE holder
              /\ inside' = inside + 1 /\ order' = Append(order, p)
              /\ lpc' = [lpc EXCEPT ![p] = "inside"]
-             /\ UNCHANGED <<op, outs, i, nWritten, errs, got, pc, lop>>
+             /\ UNCHANGED <<op, outs, i, nWritten, errs, got, pc, lop, handle>>
 LExit(p) == /\ lpc[p] = "inside" /\ inside' = inside - 1
-            /\ holder' = IF Locked THEN "none" ELSE holder
+            /\ holder' = IF Locked THEN [holder EXCEPT ![Mutex(p)] = "none"] ELSE holder
             /\ lpc' = [lpc EXCEPT ![p] = "ret"]
-            /\ UNCHANGED <<op, outs, i, nWritten, errs, got, pc, lop, order>>
+            /\ UNCHANGED <<op, outs, i, nWritten, errs, got, pc, lop, order, handle>>
 
 Next == MultiStep \/ MultiDone \/ \E p \in Procs : LWant(p) \/ LEnter(p) \/ LExit(p)
 Spec == Init /\ [][Next]_vars
